@@ -44,10 +44,78 @@ func load(repo string) {
 			fmt.Fprintln(os.Stderr, "parse error:", err)
 			os.Exit(2)
 		}
-		normalizeFile(f)
 		files[filepath.Base(m)] = f
+		for _, im := range f.Imports {
+			name := strings.Trim(im.Path.Value, "\"")
+			if i := strings.LastIndex(name, "/"); i >= 0 {
+				name = name[i+1:]
+			}
+			if im.Name != nil {
+				name = im.Name.Name
+			}
+			importedPkg[name] = true
+		}
+	}
+	// package-level constants and variables (ErrShutdown, noRequest, bufferSize, …): the "constant"
+	// side of a comparison
+	for _, f := range files {
+		for _, d := range f.Decls {
+			if gd, ok := d.(*ast.GenDecl); ok && (gd.Tok == token.CONST || gd.Tok == token.VAR) {
+				for _, sp := range gd.Specs {
+					for _, n := range sp.(*ast.ValueSpec).Names {
+						pkgLevel[n.Name] = true
+					}
+				}
+			}
+		}
+	}
+	for _, f := range files {
+		normalizeFile(f)
 	}
 }
+
+var pkgLevel = map[string]bool{}
+
+// constantLike: a literal, nil/true/false, a package-level constant or variable of this package, or
+// a qualified name of another package (io.EOF, context.Canceled).
+func constantLike(e ast.Expr) bool {
+	switch x := e.(type) {
+	case *ast.BasicLit:
+		return true
+	case *ast.ParenExpr:
+		return constantLike(x.X)
+	case *ast.UnaryExpr:
+		return x.Op == token.SUB && constantLike(x.X)
+	case *ast.Ident:
+		if x.Name == "nil" || x.Name == "true" || x.Name == "false" {
+			return true
+		}
+		return pkgLevel[x.Name] && (x.Obj == nil || isTopLevelSpec(x.Obj.Decl))
+	case *ast.SelectorExpr:
+		if id, ok := x.X.(*ast.Ident); ok && id.Obj == nil && !pkgLevel[id.Name] {
+			// an identifier the file does not declare: an imported package
+			return importedPkg[id.Name]
+		}
+	}
+	return false
+}
+
+func isTopLevelSpec(decl interface{}) bool {
+	for _, f := range files {
+		for _, d := range f.Decls {
+			if gd, ok := d.(*ast.GenDecl); ok {
+				for _, sp := range gd.Specs {
+					if sp == decl {
+						return true
+					}
+				}
+			}
+		}
+	}
+	return false
+}
+
+var importedPkg = map[string]bool{}
 
 // recvName returns the receiver type name of a method ("" for functions).
 func recvName(fd *ast.FuncDecl) string {
@@ -615,8 +683,22 @@ func normalizeFile(f *ast.File) {
 	ast.Inspect(f, func(n ast.Node) bool {
 		switch x := n.(type) {
 		case *ast.BinaryExpr:
-			if id, ok := x.X.(*ast.Ident); ok && id.Name == "nil" && (x.Op == token.EQL || x.Op == token.NEQ) {
-				x.X, x.Y = x.Y, x.X
+			// comparisons are read with their constant operand on the right: `nil != x`, `0 < len(s)`,
+			// `ErrShutdown == err` are `x != nil`, `len(s) > 0`, `err == ErrShutdown`
+			mirror := map[token.Token]token.Token{token.EQL: token.EQL, token.NEQ: token.NEQ, token.LSS: token.GTR, token.GTR: token.LSS, token.LEQ: token.GEQ, token.GEQ: token.LEQ}
+			if op, ok := mirror[x.Op]; ok && constantLike(x.X) && !constantLike(x.Y) {
+				x.X, x.Y, x.Op = x.Y, x.X, op
+			} else if ok && (x.Op == token.LSS || x.Op == token.LEQ) && constantLike(x.X) == constantLike(x.Y) {
+				// neither side (or both) constant: order comparisons are read as > / >=
+				x.X, x.Y, x.Op = x.Y, x.X, op
+			}
+			// the length of a slice is never negative: `len(s) != 0` is `len(s) > 0`
+			if c, ok := x.X.(*ast.CallExpr); ok && x.Op == token.NEQ {
+				if id, ok := c.Fun.(*ast.Ident); ok && (id.Name == "len" || id.Name == "cap") {
+					if bl, ok := x.Y.(*ast.BasicLit); ok && bl.Value == "0" {
+						x.Op = token.GTR
+					}
+				}
 			}
 		}
 		return true
